@@ -8,6 +8,9 @@ from ..model import AnalysisError, FuncInfo, Program, dotted, own_nodes, unparse
 from ..symex import atoms_of, facts_for, phi_alternatives
 from .common import U, bind_args, const_value, enum_member, is_self_attr, kwarg, np_call, returns_of, short
 
+EXPLANATION_EXTRA = (" The derivative check is applied to the transformed problem; that the scaling / slack wrappers keep function, gradient/Jacobian "
+                     "and Hessian mutually consistent (so that a correct user problem is not rejected) is decided by forwarding C04's exponent "
+                     "and slack-derivative rules.")
 EXPLANATION = (
     "Acceptance of all correct derivatives and rejection above tolerance depend on finite-difference error and are not decided.  "
     "Decided: (1) non-interference - deriv_check and Solver._deriv_check store only to locals, the perturbed point is a copy of the "
@@ -23,13 +26,19 @@ EXPLANATION = (
 
 
 def run(prog: Program, rep, tier: str) -> None:
-    rep.explanation = EXPLANATION
+    rep.explanation = EXPLANATION + EXPLANATION_EXTRA
     dc = prog.func("pygradflow.deriv_check.deriv_check")
     sd = prog.func("pygradflow.solver.Solver._deriv_check")
     sv = prog.func("pygradflow.solver.Solver.solve")
     non_interference(prog, rep, dc, sd, sv)
     wiring(prog, rep, dc)
     coverage(prog, rep, sd)
+    # the check runs on the TRANSFORMED problem (scaled, slacks added): a correct user problem passes only if the wrapper scales
+    # value, first and second derivative consistently - C04's exponent / slack-derivative agreement rules on the same constructs
+    from . import c04
+    from .c01 import _SubReport
+    sub = _SubReport(rep, keep=("scaling-exponents", "scaled-problem-exponents", "slack-jacobian", "slack-padding", "slack-cons"))
+    c04.run(prog, sub, "quick")
 
 
 def non_interference(prog, rep, dc: FuncInfo, sd: FuncInfo, sv: FuncInfo) -> None:
@@ -99,8 +108,8 @@ def wiring(prog, rep, dc: FuncInfo) -> None:
     augs = [s for s in body if isinstance(s.stmt, ast.AugAssign) and isinstance(s.stmt.target, ast.Subscript)]
     plus = [s for s in augs if isinstance(s.stmt.op, ast.Add)]
     minus = [s for s in augs if isinstance(s.stmt.op, ast.Sub)]
-    ok = len(plus) == 1 and len(minus) == 1 and U(plus[0].stmt.target) == U(minus[0].stmt.target) and U(plus[0].stmt.target.slice) == i \
-        and U(ff.resolved(plus[0].stmt, plus[0].stmt.value)) == eps_t and U(ff.resolved(minus[0].stmt, minus[0].stmt.value)) == eps_t and plus[0].index < minus[0].index
+    ok = len(plus) == 1 and len(minus) >= 1 and all(U(plus[0].stmt.target) == U(m_.stmt.target) for m_ in minus) and U(plus[0].stmt.target.slice) == i \
+        and U(ff.resolved(plus[0].stmt, plus[0].stmt.value)) == eps_t and all(U(ff.resolved(m_.stmt, m_.stmt.value)) == eps_t for m_ in minus)
     rep.check(ok, "pinpoint-perturbation", dc.qualname, short(plus[0].stmt) if plus else "xtest[i] += eps",
               "component i of the test point is perturbed by params.deriv_pert and restored by the same amount", dc.loc())
     xt = U(plus[0].stmt.target.value) if plus else None
@@ -108,8 +117,19 @@ def wiring(prog, rep, dc: FuncInfo) -> None:
     if len(raises) != 1:
         raise AnalysisError("deriv_check: expected exactly one raise inside the loop")
     rs = raises[0]
-    # undo happens on the non-raising path: the undo statement is after the raise's `if` and not inside it
-    ok_undo = bool(minus) and minus[0].index > rs.index and all(f in minus[0].facts or True for f in [])
+    # undo happens on every path that continues with the next column: along each such path exactly one `+= eps` is followed
+    # by exactly one `-= eps`
+    from ..loopflow import block_paths
+    ok_undo = bool(minus) and bool(plus)
+    n_back = 0
+    for pth in block_paths(lp.body):
+        if pth.end not in ("fall", "continue"):
+            continue
+        n_back += 1
+        seq = [("+" if isinstance(st_.op, ast.Add) else "-") for st_ in pth.stmts() if isinstance(st_, ast.AugAssign) and isinstance(st_.target, ast.Subscript)
+               and isinstance(st_.op, (ast.Add, ast.Sub))]
+        ok_undo = ok_undo and seq == ["+", "-"]
+    ok_undo = ok_undo and n_back >= 1
     rep.check(ok_undo, "pinpoint-perturbation", dc.qualname, short(minus[0].stmt) if minus else "", "the perturbation is undone on the path that continues with the next column", dc.loc())
     exc = rs.stmt.exc
     if not (isinstance(exc, ast.Call) and dotted(exc.func) == "DerivError" and len(exc.args) == 4):
@@ -162,10 +182,21 @@ def coverage(prog, rep, sd: FuncInfo) -> None:
     DC = "pygradflow.params.DerivCheck"
     for c in calls:
         si = ff.stmt_of(c)
-        if len(c.args) != 4 or not isinstance(c.args[0], ast.Lambda):
-            rep.fail("derivative-kinds-covered", sd.qualname, short(si.stmt), "VIOLATED: deriv_check is not called as deriv_check(lambda x: ..., x, derivative, params)", sd.loc(c))
+        lam = c.args[0] if c.args else None
+        if isinstance(lam, ast.Name):
+            # a local `def f(x): return <expr>` (or `f = lambda x: <expr>`) handed over by name
+            defs = [n for n in ast.walk(sd.node) if isinstance(n, ast.FunctionDef) and n.name == lam.id and n is not sd.node]
+            lams = [n.value for n in ast.walk(sd.node) if isinstance(n, ast.Assign) and len(n.targets) == 1 and U(n.targets[0]) == lam.id and isinstance(n.value, ast.Lambda)]
+            if len(defs) == 1 and not lams:
+                d = defs[0]
+                b_ = [x for x in d.body if not (isinstance(x, ast.Expr) and isinstance(x.value, ast.Constant))]
+                if len(b_) == 1 and isinstance(b_[0], ast.Return) and b_[0].value is not None and len(d.args.args) == 1:
+                    lam = ast.Lambda(args=d.args, body=b_[0].value)
+            elif len(lams) == 1 and not defs:
+                lam = lams[0]
+        if len(c.args) != 4 or not isinstance(lam, ast.Lambda) or len(lam.args.args) != 1:
+            rep.fail("derivative-kinds-covered", sd.qualname, short(si.stmt), "VIOLATED: deriv_check is not called as deriv_check(<function of x given in place>, x, derivative, params)", sd.loc(c))
             continue
-        lam = c.args[0]
         lp = lam.args.args[0].arg
         body = U(lam.body)
         x_arg = U(c.args[1])
